@@ -55,6 +55,8 @@ type record struct {
 	Hang     bool   `json:"hang"`
 	Safeops  int    `json:"safeops"`
 	VigilBad int    `json:"vigil_bad"`
+	Escaped  bool   `json:"escaped"` // a panic left the handler (nothing above a gRPC handler recovers it)
+	Changed  bool   `json:"changed"` // the swamps named by the request differ after the call
 	Note     string `json:"note,omitempty"`
 }
 
@@ -103,6 +105,7 @@ func (f *fakeBidi[Q, R]) Recv() (*Q, error) {
 
 // ---------------------------------------------------------------- structural generator
 
+const uniqPlaceholder = "w-UNIQ" // replaced by a per-call value just before the call
 const existM = "c26m/r/exists"
 const existP = "c26p/r/exists"
 
@@ -130,7 +133,7 @@ func fillValid(m protoreflect.Message, depth int, swamp string, uniq int) {
 					l.Append(protoreflect.ValueOfString("k1"))
 				}
 			case protoreflect.Uint32Kind:
-				l.Append(protoreflect.ValueOfUint32(1))
+				l.Append(protoreflect.ValueOfUint32(7)) // not in the seeded slice: an executed push is visible
 			}
 			continue
 		}
@@ -145,6 +148,12 @@ func fillValid(m protoreflect.Message, depth int, swamp string, uniq int) {
 				fillValid(m.Mutable(fd).Message(), depth-1, swamp, uniq)
 			}
 		case protoreflect.StringKind:
+			if name == "StringVal" && string(m.Descriptor().Name()) == "KeyValuePair" {
+				// a value that differs from call to call (see uniqPlaceholder): a Set that is executed is
+				// then visible in the contents of its swamp
+				m.Set(fd, protoreflect.ValueOfString(uniqPlaceholder))
+				continue
+			}
 			if fd.HasOptionalKeyword() || fd.ContainingOneof() != nil {
 				continue
 			}
@@ -155,11 +164,14 @@ func fillValid(m protoreflect.Message, depth int, swamp string, uniq int) {
 				m.Set(fd, protoreflect.ValueOfString("c26m/pat/*"))
 			case name == "Key" && strings.Contains(string(m.Descriptor().Name()), "Lock"):
 				m.Set(fd, protoreflect.ValueOfString(fmt.Sprintf("lk%d", uniq)))
+			case name == "Key" && string(m.Descriptor().Name()) == "KeySlicePair":
+				m.Set(fd, protoreflect.ValueOfString("k2")) // the seeded slice treasure
 			case name == "Key":
 				m.Set(fd, protoreflect.ValueOfString("k1"))
 			default:
 				m.Set(fd, protoreflect.ValueOfString("v"))
 			}
+			_ = uniqPlaceholder
 		case protoreflect.BoolKind:
 			if name == "CreateIfNotExist" || name == "Overwrite" {
 				m.Set(fd, protoreflect.ValueOfBool(true))
@@ -214,6 +226,14 @@ func fieldMutations(fd protoreflect.FieldDescriptor, tier string) []mutation {
 				l := m.Mutable(fd).List()
 				l.Truncate(0)
 				l.Append(l.NewElement())
+			})
+			add("nil-element", func(m protoreflect.Message) { setPtrSlice(m, fd, false, true) })
+			add("valid+nil-element", func(m protoreflect.Message) { setPtrSlice(m, fd, true, true) })
+			add("valid+zero-element", func(m protoreflect.Message) {
+				l := m.Mutable(fd).List()
+				if l.Len() > 0 {
+					l.Append(l.NewElement())
+				}
 			})
 			add("two-elements", func(m protoreflect.Message) {
 				l := m.Mutable(fd).List()
@@ -278,6 +298,38 @@ func fieldMutations(fd protoreflect.FieldDescriptor, tier string) []mutation {
 	return out
 }
 
+// setPtrSlice rewrites a repeated message field of the generated Go struct to [first?, nil]: a nil
+// element cannot be built through protoreflect (and cannot arrive over the wire), but an in-process
+// caller can pass one, and the handlers must survive it.
+func setPtrSlice(m protoreflect.Message, fd protoreflect.FieldDescriptor, keepFirst, addNil bool) {
+	defer func() { _ = recover() }()
+	v := reflect.ValueOf(m.Interface())
+	if v.Kind() != reflect.Ptr || v.IsNil() {
+		return
+	}
+	f := v.Elem().FieldByName(string(fd.Name()))
+	if !f.IsValid() || f.Kind() != reflect.Slice || f.Type().Elem().Kind() != reflect.Ptr {
+		return
+	}
+	out := reflect.MakeSlice(f.Type(), 0, 2)
+	if keepFirst && f.Len() > 0 {
+		out = reflect.Append(out, f.Index(0))
+	}
+	if addNil {
+		out = reflect.Append(out, reflect.Zero(f.Type().Elem()))
+	}
+	f.Set(out)
+}
+
+func safeText(m proto.Message) (txt string) {
+	defer func() {
+		if r := recover(); r != nil {
+			txt = fmt.Sprintf("<request not printable: %v>", r)
+		}
+	}()
+	return fmt.Sprint(m)
+}
+
 type variant struct {
 	name string
 	req  proto.Message
@@ -289,7 +341,7 @@ func variantsOf(mt protoreflect.MessageType, swamp string, uniq int, tier string
 		fillValid(m, 3, swamp, uniq)
 		return m.Interface()
 	}
-	out := []variant{{"valid", base()}, {"zero", mt.New().Interface()}}
+	out := []variant{{"valid", base()}, {"zero", mt.New().Interface()}, {"valid+cancelled-ctx", base()}}
 	fds := mt.Descriptor().Fields()
 	for i := 0; i < fds.Len(); i++ {
 		fd := fds.Get(i)
@@ -318,6 +370,19 @@ func variantsOf(mt protoreflect.MessageType, swamp string, uniq int, tier string
 					}
 					mu.apply(target)
 					out = append(out, variant{string(fd.Name()) + "." + mu.name, r})
+					// the same malformed value in a LATER entry, after a valid one: a rejected request must
+					// not have executed its earlier entries
+					if fd.IsList() && (tier == "thorough" || strings.Contains(mu.name, "Swamp") || strings.Contains(mu.name, "Key") || strings.HasSuffix(mu.name, "=unset") || strings.Contains(mu.name, "element")) {
+						r2 := base()
+						l := r2.ProtoReflect().Mutable(fd).List()
+						if l.Len() > 0 {
+							e := l.NewElement()
+							proto.Merge(e.Message().Interface(), l.Get(0).Message().Interface())
+							mu.apply(e.Message())
+							l.Append(e)
+							out = append(out, variant{string(fd.Name()) + "[1]." + mu.name, r2})
+						}
+					}
 				}
 			}
 		}
@@ -493,13 +558,19 @@ func seed(s *rig.Server, names ...string) {
 	}
 }
 
-func callMethod(s *rig.Server, method string, req proto.Message, streaming bool) (respNil bool, err error) {
+func callMethod(s *rig.Server, method string, req proto.Message, streaming, cancelled bool) (respNil bool, err error) {
 	gw := s.GW
 	ctx, cancel := context.WithTimeout(context.Background(), 250*time.Millisecond)
 	defer cancel()
+	uctx := context.Background()
+	if cancelled { // the client went away before the handler ran
+		c, cf := context.WithCancel(context.Background())
+		cf()
+		uctx, ctx = c, c
+	}
 	if !streaming {
 		meth := reflect.ValueOf(gw).MethodByName(method)
-		out := meth.Call([]reflect.Value{reflect.ValueOf(context.Background()), reflect.ValueOf(req)})
+		out := meth.Call([]reflect.Value{reflect.ValueOf(uctx), reflect.ValueOf(req)})
 		if !out[1].IsNil() {
 			err = out[1].Interface().(error)
 		}
@@ -526,6 +597,66 @@ func callMethod(s *rig.Server, method string, req proto.Message, streaming bool)
 		return false, fmt.Errorf("unknown streaming method %s", method)
 	}
 	return false, err // a streaming handler has no response value: only the error is observable
+}
+
+// swampNames lists the loadable swamp names a request mentions (any string field whose name contains
+// "Swamp", at any depth).
+func swampNames(m protoreflect.Message, acc map[string]bool) {
+	defer func() { _ = recover() }()
+	m.Range(func(fd protoreflect.FieldDescriptor, v protoreflect.Value) bool {
+		isName := strings.Contains(string(fd.Name()), "Swamp") && fd.Kind() == protoreflect.StringKind
+		add := func(x string) {
+			if isName && strings.Count(x, "/") >= 2 && len(x) < 200 && !strings.Contains(x, "*") {
+				acc[x] = true
+			}
+		}
+		switch {
+		case fd.IsMap():
+		case fd.IsList():
+			l := v.List()
+			for i := 0; i < l.Len(); i++ {
+				if fd.Kind() == protoreflect.StringKind {
+					add(l.Get(i).String())
+				} else if fd.Kind() == protoreflect.MessageKind && l.Get(i).Message().IsValid() {
+					swampNames(l.Get(i).Message(), acc)
+				}
+			}
+		case fd.Kind() == protoreflect.StringKind:
+			add(v.String())
+		case fd.Kind() == protoreflect.MessageKind:
+			swampNames(v.Message(), acc)
+		}
+		return true
+	})
+}
+
+// digest describes the stored state of the swamps a request names: existence and full contents
+// (timestamps written by the server clock excluded). A request that is answered with a rejection
+// must leave it unchanged.
+func digest(s *rig.Server, names []string) string {
+	var sb strings.Builder
+	for _, n := range names {
+		nm := name.Load(n)
+		ex, err := s.Zeus.GetHydra().IsExistSwamp(1, nm)
+		if err != nil || !ex {
+			sb.WriteString(n + ":absent;")
+			continue
+		}
+		all, err := s.GW.GetAll(context.Background(), &hydrapb.GetAllRequest{IslandID: 1, SwampName: n})
+		if err != nil || all == nil {
+			sb.WriteString(n + ":unreadable;")
+			continue
+		}
+		var items []string
+		for _, t := range all.Treasures {
+			c := proto.Clone(t).(*hydrapb.Treasure)
+			c.CreatedAt, c.UpdatedAt, c.ExpiredAt = nil, nil, nil
+			items = append(items, fmt.Sprint(c))
+		}
+		sort.Strings(items)
+		sb.WriteString(n + ":" + strings.Join(items, "|") + ";")
+	}
+	return sb.String()
 }
 
 func vigilBad(s *rig.Server) int {
@@ -609,8 +740,12 @@ func child(resultPath, root, tier string, only int) {
 				if lr, ok := v.req.(*hydrapb.LockRequest); ok && strings.HasPrefix(lr.Key, "lk") {
 					lr.Key = fmt.Sprintf("lk%d", idx) // a business lock held by an earlier variant would (rightly) block this one
 				}
+				func() {
+					defer func() { _ = recover() }()
+					replaceStr(v.req.ProtoReflect(), uniqPlaceholder, fmt.Sprintf("w%d", idx))
+				}()
 				rec := record{Idx: idx, Method: method, Variant: v.name, Phase: "start"}
-				txt := fmt.Sprint(v.req)
+				txt := safeText(v.req)
 				if len(txt) > 300 {
 					txt = txt[:300] + "..."
 				}
@@ -628,26 +763,37 @@ func child(resultPath, root, tier string, only int) {
 					rec.Shape = fmt.Sprintf("(SH %s %s %s %s %s %s %s %s %s)", nshape(swName), common.Bool(exists), keys, common.Bool(kvnil), common.Bool(by0), common.Bool(ke), common.Bool(ie), common.Bool(wkeyEmpty(method, v.req)), common.Bool(wkeyLong(method, v.req)))
 				}
 				emit(rec)
+				nameSet := map[string]bool{}
+				swampNames(v.req.ProtoReflect(), nameSet)
+				var named []string
+				for n := range nameSet {
+					named = append(named, n)
+				}
+				sort.Strings(named)
+				stateBefore := digest(s, named)
 				before := atomic.LoadInt64(&panics)
 				type res struct {
-					n   bool
-					err error
+					n       bool
+					err     error
+					escaped bool
 				}
 				ch := make(chan res, 1)
 				go func() {
 					defer func() {
+						// nothing above a gRPC handler recovers a panic: one that gets here would have
+						// terminated the server process
 						if r := recover(); r != nil {
-							atomic.AddInt64(&panics, 1)
-							ch <- res{true, nil}
+							ch <- res{true, nil, true}
 						}
 					}()
-					n, err := callMethod(s, method, v.req, streaming)
-					ch <- res{n, err}
+					n, err := callMethod(s, method, v.req, streaming, strings.HasSuffix(v.name, "cancelled-ctx"))
+					ch <- res{n, err, false}
 				}()
 				rec.Phase = "done"
 				select {
 				case r := <-ch:
 					rec.Nil = r.n
+					rec.Escaped = r.escaped
 					if streaming {
 						rec.Nil = r.err != nil
 					}
@@ -667,6 +813,7 @@ func child(resultPath, root, tier string, only int) {
 				if !rec.Hang {
 					rec.Safeops = int(safeops.LockCountC26(s.Zeus.GetSafeops()))
 					rec.VigilBad = vigilBad(s)
+					rec.Changed = digest(s, named) != stateBefore
 				}
 				emit(rec)
 				if w := os.Getenv("C26_WATCH"); w != "" { // debugging aid: when does the file of a swamp appear / vanish
@@ -853,10 +1000,11 @@ func main() {
 			h = "(Some " + r.Handler + ")"
 			sh = r.Shape
 		}
-		term := fmt.Sprintf("(VC %s %s %s %s %s %s %s %s)", h, sh, common.Bool(r.Nil), common.Z(int64(r.Code)), common.Z(int64(r.Panics)),
-			common.Bool(r.Hang), common.Z(int64(r.Safeops)), common.Z(int64(r.VigilBad)))
+		term := fmt.Sprintf("(VC %s %s %s %s %s %s %s %s %s %s %s)", h, sh, common.Bool(r.Nil), common.Z(int64(r.Code)), common.Z(int64(r.Panics)),
+			common.Bool(r.Hang), common.Z(int64(r.Safeops)), common.Z(int64(r.VigilBad)), common.Bool(r.Escaped), common.Bool(r.Changed),
+			common.Bool(strings.Contains(r.Variant, "nil-element")))
 		run.Add(term, map[string]interface{}{"method": r.Method, "variant": r.Variant, "request": r.Req, "nil_response": r.Nil, "code": r.Code,
-			"message": r.Note, "recovered_panics": r.Panics, "hang": r.Hang, "safeops_after": r.Safeops, "swamps_with_nonzero_vigil": r.VigilBad,
+			"message": r.Note, "recovered_panics": r.Panics, "hang": r.Hang, "safeops_after": r.Safeops, "swamps_with_nonzero_vigil": r.VigilBad, "panic_escaped_handler": r.Escaped, "named_swamps_changed": r.Changed,
 			"replay": fmt.Sprintf("--only %d", r.Idx)}, r.Variant != "valid")
 		run.Hist("method:" + r.Method)
 		if r.Handler != "" {
@@ -888,21 +1036,21 @@ func main() {
 		if len(tail) > 1500 {
 			tail = tail[:1500]
 		}
-		idx := run.Add("(VC None (SH NOk false KOk false false false false false false) false 0%Z 0%Z false 0%Z 0%Z)", map[string]interface{}{"crash": what, "child_output": string(tail)}, true)
+		idx := run.Add("(VC None (SH NOk false KOk false false false false false false) false 0%Z 0%Z false 0%Z 0%Z false false false)", map[string]interface{}{"crash": what, "child_output": string(tail)}, true)
 		run.Violate(idx, "never crashes the process", sig, what)
 	}
 	for _, r := range recs {
 		if r.Method == "GracefulStop" || r.Method == "GracefulStop2" {
 			run.Hist("graceful-stop")
 			if r.Hang {
-				idx := run.Add("(VC None (SH NOk false KOk false false false false false false) false 0%Z 0%Z false 0%Z 0%Z)", map[string]interface{}{"stop": "did not complete in 60 s"}, true)
+				idx := run.Add("(VC None (SH NOk false KOk false false false false false false) false 0%Z 0%Z false 0%Z 0%Z false false false)", map[string]interface{}{"stop": "did not complete in 60 s"}, true)
 				run.Violate(idx, "never leaves the server unable to shut down", "graceful_stop_does_not_complete", "GracefulStop did not complete within 60 s after the generated requests")
 			}
 		}
 		if r.Method == "OversizedKey" {
 			run.Hist("oversized-key-probe")
 			if r.Note != "" || r.Code != 3 {
-				idx := run.Add("(VC None (SH NOk false KOk false false false false false false) false 0%Z 0%Z false 0%Z 0%Z)", map[string]interface{}{"swamp": r.Variant, "code": r.Code, "note": r.Note}, true)
+				idx := run.Add("(VC None (SH NOk false KOk false false false false false false) false 0%Z 0%Z false 0%Z 0%Z false false false)", map[string]interface{}{"swamp": r.Variant, "code": r.Code, "note": r.Note}, true)
 				run.Violate(idx, "oversized keys are rejected", "oversized_key_acknowledged", fmt.Sprintf("Set with a 70000-byte key on %s: code %d %s (expected InvalidArgument)", r.Variant, r.Code, r.Note))
 			}
 		}
@@ -912,10 +1060,12 @@ func main() {
 				sig := "touched_swamp_does_not_reload"
 				if strings.HasSuffix(r.Variant, "/big") {
 					sig = "oversized_key_stored_swamp_unloadable"
+				} else if strings.Contains(r.Req, "nil-element") {
+					sig = "swamp_contents_lost_after_recovered_panic_on_nil_element"
 				} else if strings.Contains(r.Note, "Swamp does not exist") {
 					sig = "swamp_file_never_written_records_lost_at_shutdown"
 				}
-				idx := run.Add("(VC None (SH NOk false KOk false false false false false false) false 0%Z 0%Z false 0%Z 0%Z)", map[string]interface{}{"swamp": r.Variant, "last_request_on_it": r.Req, "reload": r.Note, "hang": r.Hang, "panics": r.Panics}, true)
+				idx := run.Add("(VC None (SH NOk false KOk false false false false false false) false 0%Z 0%Z false 0%Z 0%Z false false false)", map[string]interface{}{"swamp": r.Variant, "last_request_on_it": r.Req, "reload": r.Note, "hang": r.Hang, "panics": r.Panics}, true)
 				run.Violate(idx, "never corrupts stored data", sig, fmt.Sprintf("swamp %s (touched by: %s) after restart: %s (hang=%v panics=%d)", r.Variant, r.Req, r.Note, r.Hang, r.Panics))
 			}
 		}
